@@ -2055,4 +2055,87 @@ def slice_mutation_oracle(ctx):
 CHECKS.update({"snapshot": snapshot_check, "documented_errors": documented_check, "slice_under_mutation": slice_mutation_check})
 
 
+def stored_default_alias_check(sc):
+    """a typed / list-typed attribute whose getter stores a default (`partial(get, default=dict | list,
+    store_default=True)`): what the *first* read hands out wraps the very node that was stored — writes through it
+    are writes to the document (constant and callable defaults, missing levels at any depth)"""
+    from functools import partial
+    from treepath import Document, attr, attr_typed, attr_list_typed
+    depth, kind, callable_default = sc["depth"], sc["kind"], sc["callable"]
+    if kind == "second_doc":
+        # one class, two documents: the levels a cascading assignment creates belong to the document assigned to
+        from treepath import pprop, set_
+        e = path
+        for i in range(depth + 1):
+            e = e["lvl%d" % i]
+        e = e[0].leaf if callable_default else e.leaf
+
+        class P:
+            def __init__(self, d):
+                self._d = d
+
+            def data(self):
+                return self._d
+            x = pprop(e, data)
+
+        class A(Document):
+            x = attr(e, setter=partial(set_, cascade=True))
+        for cls2 in (P, A):
+            d1, d2 = {}, {}
+            cls2(d1).x = 1
+            snap = json.dumps(d1)
+            cls2(d2).x = 2
+            if json.dumps(d1) != snap:
+                return f"assigning through the same attribute on a second document changed the first: {snap} -> {json.dumps(d1)}", True
+            if "lvl0" not in d1 or d1["lvl0"] is d2.get("lvl0"):
+                return "two documents share a level that a cascading assignment created", True
+            cls2(d1).x = 3
+            if json.dumps(d2) != json.dumps(d1).replace("3", "2"):
+                return f"documents diverge after a further assignment: {json.dumps(d1)} / {json.dumps(d2)}", True
+        return None, True
+    expr = path
+    for i in range(depth):
+        expr = expr["lvl%d" % i]
+    expr = expr.node
+
+    class Inner(Document):
+        name = attr()
+
+    if kind == "list":
+        dflt = list if callable_default else []
+        cls = type("Outer", (Document,), {"node": attr_list_typed(int, expr, getter=partial(get, default=dflt, store_default=True))})
+    else:
+        dflt = dict if callable_default else {}
+        cls = type("Outer", (Document,), {"node": attr_typed(Inner, expr, getter=partial(get, default=dflt, store_default=True))})
+    doc = {}
+    inst = cls(doc)
+    first = inst.node
+    if kind == "list":
+        first.append(3)
+        first.append(5)
+    else:
+        first.name = "written"
+    cur = doc
+    try:
+        for i in range(depth):
+            cur = cur["lvl%d" % i]
+        stored = cur["node"]
+    except (KeyError, TypeError):
+        return f"nothing was stored at the attribute's location: {doc!r:.80}", True
+    want = [3, 5] if kind == "list" else {"name": "written"}
+    if stored != want:
+        return f"a write through the first read of the attribute did not reach the document: it holds {stored!r:.60}", True
+    if first.data is not stored or inst.node.data is not stored:
+        return "the object handed out does not wrap the stored node itself", True
+    return None, True
+
+
+def stored_default_alias_oracle(ctx):
+    cases = [{"depth": d, "kind": k, "callable": c} for d in (0, 1, 3) for k in ("list", "dict") for c in (True, False)]
+    cases += [{"depth": d, "kind": "second_doc", "callable": c} for d in (0, 2) for c in (True, False)]
+    it = iter(cases)
+    _run(ctx, "stored_default_alias", len(cases), len(cases), lambda rng: next(it), stored_default_alias_check)
+
+
+CHECKS["stored_default_alias"] = stored_default_alias_check
 CHECKS["eq_across_documents"] = eq_across_documents_check
